@@ -74,13 +74,16 @@ func (s *Script) allNodes() []*Node {
 
 // Layout describes one rendering of a script. The zero tape with Unit 4 is the canonical layout.
 type Layout struct {
-	Unit      int     `json:"unit"`              // spaces per nesting level; 0 = one tab per level; -1 = varied widths from the tape
-	CRLF      bool    `json:"crlf,omitempty"`    // line ends
-	FlatIf    bool    `json:"flat_if,omitempty"` // if-bodies not indented
-	NoFinalNL bool    `json:"no_final_nl,omitempty"`
-	Tape      []uint8 `json:"tape,omitempty"` // consumed in order by every layout decision; exhausted = 0 = canonical choice
-	pos       int
-	used      map[string]int
+	Unit      int  `json:"unit"`              // spaces per nesting level; 0 = one tab per level; -1 = varied widths from the tape
+	CRLF      bool `json:"crlf,omitempty"`    // line ends
+	FlatIf    bool `json:"flat_if,omitempty"` // if-bodies not indented
+	NoFinalNL bool `json:"no_final_nl,omitempty"`
+	// JumpBlanks: extra blanks between "jump" and its destination. Never generated (known finding of C08: the
+	// lexer mode entered after "jump " has no whitespace rule); only the stored replay case sets it.
+	JumpBlanks int     `json:"jump_blanks,omitempty"`
+	Tape       []uint8 `json:"tape,omitempty"` // consumed in order by every layout decision; exhausted = 0 = canonical choice
+	pos        int
+	used       map[string]int
 }
 
 var canonicalLayout = Layout{Unit: 4}
@@ -188,14 +191,22 @@ func (l *Layout) note(kind string) {
 	l.used[kind]++
 }
 
-func (p *printer) trailing() string {
+// trailing returns what follows the statement on its line. In text mode (the line ends with literal text or an
+// inline expression) blanks before a comment would be part of the line's text - the repository's own tree snapshots
+// pin that - so there the comment is attached directly and no trailing blanks are produced.
+func (p *printer) trailing(textMode bool) string {
 	switch p.lay.next("trailing") % 8 {
 	case 1:
 		p.lay.note("trailing-comment")
+		if textMode {
+			return "// trailing comment"
+		}
 		return " // trailing comment"
 	case 2:
-		p.lay.note("trailing-blanks")
-		return "  "
+		if !textMode {
+			p.lay.note("trailing-blanks")
+			return "  "
+		}
 	}
 	return ""
 }
@@ -209,8 +220,10 @@ func (p *printer) cb() string {
 	return ""
 }
 
-func (p *printer) line(s string) {
-	p.b.WriteString(p.cur() + s + p.trailing() + "\n")
+func (p *printer) line(s string) { p.lineMode(s, false) }
+
+func (p *printer) lineMode(s string, textMode bool) {
+	p.b.WriteString(p.cur() + s + p.trailing(textMode) + "\n")
 }
 
 func (p *printer) text(parts []TextPart) string {
@@ -259,7 +272,7 @@ func assignSpelling(op string, p *printer) string {
 func (p *printer) stmt(s *Stmt) {
 	switch s.K {
 	case "line":
-		p.line(p.text(s.Text) + p.tags(s.Tags))
+		p.lineMode(p.text(s.Text)+p.tags(s.Tags), len(s.Tags) == 0)
 	case "opts":
 		for i, o := range s.Opts {
 			if i > 0 {
@@ -269,7 +282,7 @@ func (p *printer) stmt(s *Stmt) {
 			if o.Cond != nil {
 				l += " " + p.cmd("if", printExpr(o.Cond, p.style))
 			}
-			p.line(l + p.tags(o.Tags))
+			p.lineMode(l+p.tags(o.Tags), o.Cond == nil && len(o.Tags) == 0)
 			if len(o.Body) > 0 {
 				p.push()
 				p.body(o.Body)
@@ -305,7 +318,7 @@ func (p *printer) stmt(s *Stmt) {
 		p.line(p.cmd("declare", "$"+s.Var+" "+p.cb()+assignSpelling("=", p)+" "+p.cb()+printExprInner(s.E, nil)))
 	case "jump":
 		// exactly one blank between "jump" and the destination: more is a known finding (C08)
-		p.line("<<" + p.cb() + "jump " + s.Target + p.cb() + ">>")
+		p.line("<<" + p.cb() + "jump " + strings.Repeat(" ", p.lay.JumpBlanks) + s.Target + p.cb() + ">>")
 	case "jumpx":
 		p.line("<<" + p.cb() + "jump {" + p.cb() + printExpr(s.E, p.style) + p.cb() + "}" + p.cb() + ">>")
 	case "stop":
